@@ -11,6 +11,17 @@
 (* This module has the value classes of every dimension, Expected and Holds;  *)
 (* the case space itself (a union of products) is in Bearer.tla, so that the  *)
 (* monitor does not enumerate it.                                             *)
+(*                                                                            *)
+(* Time.  A request is not decided in one instant: the middleware calls the   *)
+(* TokenVerifier, and a verifier that asks somebody else (introspection, a    *)
+(* key set, a session store) takes a duration d.  A presentation of a request *)
+(* therefore has TWO instants, the arrival t0 and the instant t1 = t0 + d at  *)
+(* which the verifier has answered, the decision is taken and the handler is  *)
+(* entered.  "Unexpired" is a predicate of an instant (ExpiredAt); the two    *)
+(* halves of the property use it as far as the statement supports (Holds).    *)
+(* With d = 0 (every part of the case space except the duration slice) the    *)
+(* two instants are one and everything below reduces to the frozen-clock      *)
+(* table.                                                                     *)
 EXTENDS Integers, Sequences, FiniteSets, TLC, Json, SequencesExt
 
 -----------------------------------------------------------------------------
@@ -97,7 +108,34 @@ AbsOff(e) == CASE e = "hrago" -> N(0, -3600, 0)   [] e = "hrahead" -> N(0, 3600,
 \* Expiration - now
 ExpOff(c) == IF c.exp \in ExpNear THEN Plus(Minus(SkewVal(c.skew)), NearDelta(c.exp)) ELSE AbsOff(c.exp)
 \* "expired" is a comparison of instants: Expiration + skew is before now (in the integers: nothing wraps, nothing saturates)
+\* Expired(c): at the arrival of the first presentation (the only instant there is when the verifier is instantaneous)
 Expired(c) == c.exp # "zero" /\ Negative(Plus(ExpOff(c), SkewVal(c.skew)))
+
+\* The duration d of one verifier call.  Life = Expiration + skew - (arrival of the first presentation): what is left of
+\* the token, skew included, when the request arrives (negative: already expired beyond the skew).
+\*   0     the verifier answers at once (t1 = t0)
+\*   secs  seconds (1 s .. 30 s), whatever the life: shorter than a life of hours, longer than one of nanoseconds
+\*   Lm1 / L / Lp1   exactly the life minus one ns / the life / the life plus one ns: at t1 the token has 1 ns left / is AT
+\*         the boundary Expiration + skew = t1 (not yet "before": unexpired) / is one ns beyond it
+\*   long  the life plus seconds: the token runs out while the verifier is at work, by a human margin
+\* A duration is not negative (ValidCase); the classes relative to the life need an expiration.
+Durs == {"0", "secs", "Lm1", "L", "Lp1", "long"}
+RelDurs == {"Lm1", "L", "Lp1", "long"}
+Zero == N(0, 0, 0)
+Life(c) == Plus(ExpOff(c), SkewVal(c.skew))
+DurVal(c) == CASE c.dur = "0" -> Zero
+               [] c.dur = "secs" -> N(0, 5, 0)
+               [] c.dur = "Lm1" -> Plus(Life(c), N(0, 0, -1))
+               [] c.dur = "L" -> Life(c)
+               [] c.dur = "Lp1" -> Plus(Life(c), N(0, 0, 1))
+               [] c.dur = "long" -> Plus(Life(c), N(0, 5, 0))
+\* Instants are counted from the arrival of the first presentation of the case, in verifier calls: the clock moves only
+\* while the (scripted) verifier is at work, so every instant of a run is k*d for some k (the second presentation of a
+\* request arrives when the first has been answered).
+Scale(k, x) == N(k * x.q, k * x.m, k * x.l)
+Inst(c, k) == IF k = 0 THEN Zero ELSE Scale(k, DurVal(c))
+\* Expiration + skew is before the instant k*d
+ExpiredAt(c, k) == c.exp # "zero" /\ Negative(Plus(Life(c), Minus(Inst(c, k))))
 
 \* forms of the configured ResourceMetadataURL: none (""), a plain https URL, one with a query (& = and a comma),
 \* one with percent-escapes (%22 %2C %20) and a port, a long one with a fragment
@@ -106,65 +144,108 @@ UrlForms == {"none", "plain", "query", "pct", "long"}
 
 -----------------------------------------------------------------------------
 \* A case.  The case space (a union of products over these classes) is Bearer!CaseParts.
-Rec(h, v, r, rf, g, gf, e, s, a, u, o) ==
-  [hdr |-> h, ver |-> v, req |-> r, rform |-> rf, granted |-> g, gform |-> gf, exp |-> e, skew |-> s, allow |-> a, url |-> u, opts |-> o]
+RecD(h, v, r, rf, g, gf, e, s, a, u, o, d) ==
+  [hdr |-> h, ver |-> v, req |-> r, rform |-> rf, granted |-> g, gform |-> gf, exp |-> e, skew |-> s, allow |-> a, url |-> u, opts |-> o,
+   dur |-> d]
+\* an instantaneous verifier
+Rec(h, v, r, rf, g, gf, e, s, a, u, o) == RecD(h, v, r, rf, g, gf, e, s, a, u, o, "0")
 \* nil options configure nothing; list forms need a non-empty list
 ValidCase(c) == /\ (c.opts = "nil" => (c.req = {} /\ c.skew = "0" /\ ~c.allow /\ c.url = "none"))
                 /\ (c.gform = "dup" => (c.granted # {} /\ c.hdr \in {"bearer", "lower"}))
                 /\ (c.gform \in {"near", "joined"} => c.granted # {})
                 /\ (c.rform = "dup" => c.req # {})
+                /\ (c.dur \in RelDurs => (c.exp # "zero" /\ ~Negative(DurVal(c))))
 
 -----------------------------------------------------------------------------
-\* Outcome: [status, ran, sameInfo, chal, chalUrl, chalScope]
+\* Outcome of ONE presentation: [status, ran, sameInfo, chal, chalUrl, chalScope, verCalled, arr, dec]
 \*   chalUrl / chalScope: what a reader of the Bearer challenge (RFC 9110 auth-params, quoted-string unescaped) finds under
 \*   resource_metadata / scope: "none" no such parameter, "match" the configured URL / exactly the configured scopes
 \*   (as a set), "other" anything else
-Admitted == [status |-> 200, ran |-> TRUE, sameInfo |-> TRUE, chal |-> FALSE, chalUrl |-> "none", chalScope |-> "none"]
-Reject(c, st) ==
+\*   verCalled: the verifier was called (its duration then elapses)
+\*   arr:  the instant t0 at which the request arrived
+\*   dec:  the instant t1 at which it was decided, as observed: the handler was entered or, if it did not run, the refusal
+\*         was answered; both in verifier calls since the first arrival of the case (Inst)
+Admitted(arr) == [status |-> 200, ran |-> TRUE, sameInfo |-> TRUE, chal |-> FALSE, chalUrl |-> "none", chalScope |-> "none",
+                  verCalled |-> TRUE, arr |-> arr, dec |-> arr + 1]
+Reject(c, st, arr, called) ==
   LET ch == st \in {401, 403} /\ c.opts = "set" /\ (c.url # "none" \/ c.req # {})
   IN [status |-> st, ran |-> FALSE, sameInfo |-> FALSE, chal |-> ch,
       chalUrl |-> IF ch /\ c.url # "none" THEN "match" ELSE "none",
-      chalScope |-> IF ch /\ c.req # {} THEN "match" ELSE "none"]
+      chalScope |-> IF ch /\ c.req # {} THEN "match" ELSE "none",
+      verCalled |-> called, arr |-> arr, dec |-> arr + (IF called THEN 1 ELSE 0)]
 
-Expected(c) ==
-  IF ~CodeValid(c.hdr) THEN Reject(c, 401)
-  ELSE IF c.ver \in {"invalid", "wrapinvalid", "invalid_info"} THEN Reject(c, 401)
-  ELSE IF c.ver = "oauth" THEN Reject(c, 400)
-  ELSE IF c.ver \in {"other", "nilinfo", "other_info"} THEN Reject(c, 500)
-  ELSE IF c.opts = "set" /\ ~(c.req \subseteq EffGranted(c)) THEN Reject(c, 403)    \* slices.Contains per required scope
-  ELSE IF c.exp = "zero" THEN (IF c.allow THEN Admitted ELSE Reject(c, 401))
+\* What the code does with a request that arrives at the instant arr.
+ExpectedAt(c, arr) ==
+  IF ~CodeValid(c.hdr) THEN Reject(c, 401, arr, FALSE)
+  ELSE IF c.ver \in {"invalid", "wrapinvalid", "invalid_info"} THEN Reject(c, 401, arr, TRUE)
+  ELSE IF c.ver = "oauth" THEN Reject(c, 400, arr, TRUE)
+  ELSE IF c.ver \in {"other", "nilinfo", "other_info"} THEN Reject(c, 500, arr, TRUE)
+  ELSE IF c.opts = "set" /\ ~(c.req \subseteq EffGranted(c)) THEN Reject(c, 403, arr, TRUE)    \* slices.Contains per required scope
+  ELSE IF c.exp = "zero" THEN (IF c.allow THEN Admitted(arr) ELSE Reject(c, 401, arr, TRUE))
   \* Expiration.Add(ClockSkew).Before(time.Now()): time.Time carries int64 SECONDS and Add saturates, so on every class
-  \* here the comparison is the one of the integers
-  ELSE IF Negative(Plus(ExpOff(c), SkewVal(c.skew))) THEN Reject(c, 401)
-  ELSE Admitted
+  \* here the comparison is the one of the integers.  The clock is read HERE, after the verifier has returned: at arr + 1
+  ELSE IF Negative(Plus(Life(c), Minus(Inst(c, arr + 1)))) THEN Reject(c, 401, arr, TRUE)
+  ELSE Admitted(arr)
+\* A case is presented twice to one middleware instance, the second time when the first has been answered
+Arr2(c) == IF CodeValid(c.hdr) THEN 1 ELSE 0
+Expected(c) == ExpectedAt(c, 0)
+\* The same procedure with the clock read ONCE, on arrival (before the verifier is called).  Not what the code does: it is
+\* here as a design-level witness that the property tells the two apart (Bearer!EarlyClockRefuted).
+ExpectedEarly(c, arr) ==
+  LET o == ExpectedAt(c, arr) IN
+  IF CodeValid(c.hdr) /\ c.ver = "ok" /\ ~(c.opts = "set" /\ ~(c.req \subseteq EffGranted(c))) /\ c.exp # "zero"
+  THEN (IF ExpiredAt(c, arr) THEN Reject(c, 401, arr, TRUE) ELSE Admitted(arr))
+  ELSE o
 
 -----------------------------------------------------------------------------
 \* The property.
-Unexpired(c) == IF c.exp = "zero" THEN c.allow ELSE ~Expired(c)
+\* "unexpired within the configured clock skew (or lacks an expiration only when that is explicitly allowed)", at the instant k
+UnexpiredAt(c, k) == IF c.exp = "zero" THEN c.allow ELSE ~ExpiredAt(c, k)
 \* the credential is accepted, has every required scope and is unexpired within the skew
-Rest(c) == c.ver = "ok" /\ c.req \subseteq EffGranted(c) /\ Unexpired(c)
-Admit(c) == ValidSyntax(c.hdr) /\ Rest(c)
-MayAdmit(c) == (ValidSyntax(c.hdr) \/ Unsettled(c.hdr)) /\ Rest(c)
+RestAt(c, k) == c.ver = "ok" /\ c.req \subseteq EffGranted(c) /\ UnexpiredAt(c, k)
+AdmitAt(c, k) == ValidSyntax(c.hdr) /\ RestAt(c, k)
+MayAdmitAt(c, k) == (ValidSyntax(c.hdr) \/ Unsettled(c.hdr)) /\ RestAt(c, k)
+\* at the first arrival (the only instant of a case whose verifier is instantaneous)
+Unexpired(c) == UnexpiredAt(c, 0)
+Rest(c) == RestAt(c, 0)
+Admit(c) == AdmitAt(c, 0)
+MayAdmit(c) == MayAdmitAt(c, 0)
 
-\* the statuses that the causes present in c mandate
-CredStatuses(c) ==
+\* the statuses that the causes present in c mandate; the cause "expired" is present when the token is expired at one of
+\* the instants of the presentation
+CredStatuses(c, t0, t1) ==
   IF c.ver \in {"invalid", "wrapinvalid", "invalid_info"} THEN {401}
   ELSE IF c.ver = "oauth" THEN {400}
   ELSE IF c.ver \in {"other", "nilinfo", "other_info"} THEN {500}
-  ELSE (IF ~(c.req \subseteq EffGranted(c)) THEN {403} ELSE {}) \cup (IF ~Unexpired(c) THEN {401} ELSE {})
-CauseStatuses(c) ==
-  IF ValidSyntax(c.hdr) THEN CredStatuses(c)
-  ELSE IF Unsettled(c.hdr) THEN {401} \cup CredStatuses(c)
+  ELSE (IF ~(c.req \subseteq EffGranted(c)) THEN {403} ELSE {}) \cup (IF ~UnexpiredAt(c, t0) \/ ~UnexpiredAt(c, t1) THEN {401} ELSE {})
+CauseStatuses(c, t0, t1) ==
+  IF ValidSyntax(c.hdr) THEN CredStatuses(c, t0, t1)
+  ELSE IF Unsettled(c.hdr) THEN {401} \cup CredStatuses(c, t0, t1)
   ELSE {401}
 
-Holds(c, o) ==
-  /\ Admit(c) => o.ran                                        \* if
-  /\ o.ran => MayAdmit(c)                                     \* only if (Admit = MayAdmit except on the unsettled shapes)
-  /\ o.ran => o.sameInfo                                      \* handler sees exactly the verifier's info
-  /\ ~o.ran => o.status \in CauseStatuses(c)                  \* status by cause
+\* The statement says "unexpired" without naming an instant.  What it supports, and no more:
+\*   ONLY IF  the handler runs only if the token is unexpired within the skew at the instant the handler is ENTERED: a
+\*            token that is expired beyond the skew when the handler starts must never reach it, however long the
+\*            verifier took and whatever the token's state was when the request arrived;
+\*   IF       demanded only when the token is unexpired at BOTH instants, arrival t0 and decision t1.  A request whose
+\*            token is unexpired at one of them and expired at the other is not covered by this half: there a 401
+\*            "expired" and an admission are both acceptable answers to it.  (Time does not run backwards, d >= 0, so
+\*            "expired at t0" implies "expired at t1" - Bearer!Monotone - and the window that is left open by BOTH halves
+\*            is empty on this case space: unexpired at t0 and expired at t1 is refused by the ONLY-IF half, since no
+\*            handler can be entered before t1.  The IF half is nevertheless stated in the weak form: it is all the
+\*            statement gives.)
+HIf(c, o) == (AdmitAt(c, o.arr) /\ AdmitAt(c, o.dec)) => o.ran
+HOnlyIf(c, o) == o.ran => MayAdmitAt(c, o.dec)                 \* Admit = MayAdmit except on the unsettled shapes
+HSameInfo(c, o) == o.ran => o.sameInfo                         \* handler sees exactly the verifier's info
+HStatus(c, o) == ~o.ran => o.status \in CauseStatuses(c, o.arr, o.dec)    \* status by cause
+HChallenge(c, o) ==
   /\ (~o.ran /\ o.status \in {401, 403} /\ c.opts = "set") =>  \* challenge carries what is configured
         /\ c.url # "none" => o.chalUrl = "match"
         /\ c.req # {} => o.chalScope = "match"
   /\ o.chalUrl # "other" /\ (o.chalUrl = "match" => c.url # "none")   \* and nothing that is not configured
   /\ o.chalScope # "other" /\ (o.chalScope = "match" => c.req # {})
+Holds(c, o) == HIf(c, o) /\ HOnlyIf(c, o) /\ HSameInfo(c, o) /\ HStatus(c, o) /\ HChallenge(c, o)
+\* the first clause of Holds that (c, o) fails (for the report of the monitor)
+FailedClause(c, o) == IF ~HOnlyIf(c, o) THEN "OnlyIf" ELSE IF ~HIf(c, o) THEN "If" ELSE IF ~HSameInfo(c, o) THEN "SameInfo"
+                      ELSE IF ~HStatus(c, o) THEN "Status" ELSE "Challenge"
 =============================================================================
